@@ -894,4 +894,5 @@ func runC03(r *Run) {
 	}
 	c03Shape(r, site, main, ou, paths, credits)
 	c03DeleteChain(r, site)
+	c03SecondsUnit(r)
 }
